@@ -26,9 +26,37 @@ import numpy as np
 
 from harness import extract
 from harness import llh_fixtures as fx
+from harness import c11_r7_fixtures as r7
 from harness.core import b2f, f2b, flist, parse_flist
 
-MODEL_MODULES = ['SkyllhModel.Model.Minimizer']
+MODEL_MODULES = ['SkyllhModel.Model.Minimizer', 'SkyllhModel.Model.MinimizerR7']
+
+# which Python callables have an executable Lean counterpart that the theorems are about and that run(ctx) compares
+# with the real callable on every run
+MODEL_MAP = {
+    'skyllh/core/minimizer.py::NR1dNsMinimizerImpl.minimize': ['Minimizer.nr', 'Minimizer.nrLoop', 'Minimizer.newtonStep', 'Minimizer.clipNs',
+                                                               'Minimizer.keepGoing', 'Minimizer.outward', 'Minimizer.nrLayout'],
+    'skyllh/core/minimizer.py::NR1dNsMinimizerImpl.has_converged': ['Minimizer.nrConverged', 'Minimizer.nrConvergedG', 'Minimizer.implConverged'],
+    'skyllh/core/minimizer.py::NR1dNsMinimizerImpl.is_repeatable': ['Minimizer.implRepeatable'],
+    'skyllh/core/minimizer.py::NRNsScan2dMinimizerImpl.minimize': ['Minimizer.scan', 'Minimizer.scanFold', 'Minimizer.linspace', 'Minimizer.scanCountFloatE'],
+    'skyllh/core/minimizer.py::Minimizer.minimize': ['Minimizer.wrapper', 'Minimizer.wrapLoop', 'Minimizer.clipAll', 'Minimizer.anyOut', 'Minimizer.hasNaN',
+                                                     'Minimizer.wrapperE', 'Minimizer.wrapLoopE', 'Minimizer.wrapperRet', 'Minimizer.reevalValue'],
+    'skyllh/core/minimizer.py::ScipyMinimizerImpl.minimize': ['Minimizer.scipyBoundsMode', 'Minimizer.scipyBoundsModeG', 'Minimizer.cobylaConstraints'],
+    'skyllh/core/minimizer.py::ScipyMinimizerImpl.has_converged': ['Minimizer.implConverged'],
+    'skyllh/core/minimizer.py::ScipyMinimizerImpl.is_repeatable': ['Minimizer.implRepeatable'],
+    'skyllh/core/minimizer.py::LBFGSMinimizerImpl.has_converged': ['Minimizer.lbfgsConverged', 'Minimizer.lbfgsConvergedG'],
+    'skyllh/core/minimizer.py::LBFGSMinimizerImpl.is_repeatable': ['Minimizer.lbfgsRepeatable', 'Minimizer.lbfgsRepeatableG', 'Minimizer.contains'],
+    'skyllh/core/minimizers/iminuit.py::IMinuitMinimizerImpl.has_converged': ['Minimizer.implConverged'],
+    'skyllh/core/minimizers/iminuit.py::IMinuitMinimizerImpl.is_repeatable': ['Minimizer.implRepeatable'],
+    'skyllh/core/minimizers/iminuit.py::FuncWithGradsFunctor.get_f': ['Minimizer.functorStep', 'Minimizer.functorRun'],
+    'skyllh/core/minimizers/iminuit.py::FuncWithGradsFunctor.get_grads': ['Minimizer.functorStep', 'Minimizer.functorRun'],
+    'skyllh/core/minimizers/crs.py::CRSMinimizerImpl.minimize': ['Minimizer.crsSuccess', 'Minimizer.crsSuccessG'],
+    'skyllh/core/minimizers/crs.py::CRSMinimizerImpl.has_converged': ['Minimizer.implConverged'],
+    'skyllh/core/minimizers/crs.py::CRSMinimizerImpl.is_repeatable': ['Minimizer.implRepeatable'],
+    'skyllh/core/llhratio.py::LLHRatio.maximize': ['Minimizer.maximize', 'Minimizer.negFunc'],
+    'skyllh/core/llhratio.py::TCLLHRatio.maximize': ['Minimizer.maximizePath', 'Minimizer.objectiveArity'],
+    'skyllh/core/llhratio.py::TCLLHRatio.maximize_with_1d_newton_rapson_minimizer': ['Minimizer.negNrFunc', 'Minimizer.maximize'],
+}
 
 SRC = 'skyllh/core/minimizer.py'
 RECORDED = dict(ns_tol=1e-3, slope_thr=1e-1, fp_init=1000.0, max_steps=100, max_reps=100)
@@ -113,8 +141,9 @@ def generated(ctx):
             'def maxSteps : Nat := %d\n'
             '/-- default of `Minimizer(max_repetitions=...)` -/\n'
             'def maxRepetitions : Nat := %d\n'
+            '%s'
             'end Gen.C11\n') % (extract.lean_float(c['ns_tol']), extract.lean_float(c['slope_thr']),
-                                extract.lean_float(c['fp_init']), c['max_steps'], c['max_reps'])
+                                extract.lean_float(c['fp_init']), c['max_steps'], c['max_reps'], r7.generated_r7(ctx))
 
 
 # --------------------------------------------------------------------------------------------------
@@ -2082,6 +2111,7 @@ ORACLES = {
     'history_contract': o_history_contract, 'functor_history': o_functor_history,
     'lbfgs_scripted': o_lbfgs_scripted, 'wrapper_exceptions': o_wrapper_exceptions, 'generic_objective': o_generic_objective,
     'bounds_mode': o_bounds_mode, 'parameter_guard': o_parameter_guard, 'nr_objective': o_nr_objective,
+    'reeval_shapes': r7.o_reeval_shapes, 'status_literals': r7.o_status_literals, 'nr_layout': r7.o_nr_layout, 'maximize_dispatch': r7.o_maximize_dispatch,
 }
 
 
@@ -2304,7 +2334,7 @@ def _classify(res):
     m = re.search(r'raised (\w+)', res)
     if m:
         return 'raises-' + m.group(1)
-    for key, tag in (('outside', 'out-of-bounds'), ('func(xmin', 'fmin-inconsistent'), ('silently', 'silent-nonconverged'),
+    for key, tag in (('not the function value', 'fmin-not-a-value'), ('outside', 'out-of-bounds'), ('func(xmin', 'fmin-inconsistent'), ('silently', 'silent-nonconverged'),
                      ('warnflag', 'flag'), ('stationary', 'not-stationary'), ('initial point', 'worse-than-initial'),
                      ('containing NaN', 'nan-passed-through'), ('must not vary', 'wrong-parameter-varied'), ('initial value of the second', 'scan-worse-than-initial'), ('dropped silently', 'scan-point-not-converged'), ('log_lambda_max', 'maximize-negation'), ('repetitions', 'repetitions'), ('first best', 'scan-best'),
                      ('on the same object', 'stale-state-between-minimisations'), ('FuncWithGradsFunctor', 'functor-cache'), ('swallowed', 'exception-swallowed'), ('scripted optimiser', 'lbfgs-restart-logic'), ('is_repeatable', 'status-table'), ('has_converged', 'status-table'), ('function of the point', 'objective-not-a-function-of-the-point'), ('negated value', 'objective-negation'), ('the bounds are', 'bounds-mode'), ('handed in', 'input-mutated-or-aliased'), ('float64 ndarray', 'xmin-type'), ('given the bounds', 'impl-out-of-bounds'), ('constrained optimum', 'not-constrained-optimum'),
@@ -2329,7 +2359,7 @@ ALL_BRANCHES = [
     'clip1:above', 'clip1:below', 'clip1:inside',
     'wrapE:first-call-raises', 'wrapE:later-call-raises', 'wrapE:objective-raises', 'wrapE:no-exception',
     'functorStep:hit', 'functorStep:no-hit-in-this-case',
-]
+] + r7.R7_BRANCHES
 
 
 def _newton(t):
@@ -2536,10 +2566,23 @@ def run(ctx):
     bms = [{'kind': 'bmode', 'method': m, 'grads': g, 'bounds': [[0.0, 1.0], [-1.0, 2.0]], 'cls': 'bounds-mode:' + m}
            for m in SCIPY_METHODS for g in (True, False)]
     sts = [{'kind': 'status', 'cls': 'status-tables'}]
+    # round 7: objective return shapes at the re-evaluation (every shape in every run), status code at the source's literals,
+    # NR-1D inside parameter vectors
+    rev = [r7.gen_reeval_case(rng, sh) for sh in r7.SHAPES for _ in range(ctx.n(3, 30))] + [r7.gen_reeval_case(rng) for _ in range(ctx.n(20, 400))]
+    stl = [{'kind': 'statusg', 'cls': 'status-literals'}]
+    lay = [r7.gen_layout_case(rng) for _ in range(ctx.n(30, 400))]
+    try:
+        import iminuit as _im  # noqa
+        have_im = True
+    except Exception:  # noqa
+        have_im = False
+    dsp = [d for _ in range(ctx.n(1, 6)) for d in r7.gen_dispatch_cases(rng, gen_llh_case, have_im)]
     for name, lst, fn in (('linspace', lins, linspace_reqs), ('cobyla_constraints', cobs, cobyla_reqs),
                           ('functor_history', funs, functor_reqs), ('lbfgs_scripted', lbs, lbfgs_scripted_reqs),
                           ('wrapper_exceptions', wex, wrapper_exc_reqs), ('generic_objective', gob, generic_objective_reqs), ('nr_objective', nob, nr_objective_reqs),
-                          ('bounds_mode', bms, bounds_mode_reqs), ('status_tables', sts, status_reqs)):
+                          ('bounds_mode', bms, bounds_mode_reqs), ('status_tables', sts, status_reqs),
+                          ('reeval_shapes', rev, r7.reeval_reqs), ('status_literals', stl, r7.statusg_reqs), ('nr_layout', lay, r7.layout_reqs),
+                          ('maximize_dispatch', dsp, r7.dispatch_reqs)):
         for i, cs in enumerate(lst):
             r = fn(cs)
             slices[(name, i)] = (len(reqs), len(reqs) + len(r))
@@ -2582,7 +2625,8 @@ def run(ctx):
     for (cs, res, state) in wruns:
         check('wrapper_contract', cs)
     for name, lst in (('linspace', lins), ('cobyla_constraints', cobs), ('functor_history', funs), ('lbfgs_scripted', lbs),
-                      ('wrapper_exceptions', wex), ('generic_objective', gob), ('nr_objective', nob), ('bounds_mode', bms), ('status_tables', sts)):
+                      ('wrapper_exceptions', wex), ('generic_objective', gob), ('nr_objective', nob), ('bounds_mode', bms), ('status_tables', sts),
+                      ('reeval_shapes', rev), ('status_literals', stl), ('nr_layout', lay), ('maximize_dispatch', dsp)):
         for i, cs in enumerate(lst):
             (a, b) = slices[(name, i)]
             ctx.count('oracle:' + name)
@@ -2692,7 +2736,7 @@ MANIFEST = dict(
           'step <= ns_tol and slope <= threshold, flags -2/-1 only at that bound with the Newton step pointing outward; NR+scan = '
           'first best NR result over the scan values (strictly better than every earlier one), niter summed, linspace inside the bounds; Minimizer.minimize over an arbitrary sequence of attempts raises unless the '
           'last attempt converged, returns in-bounds values, re-evaluates after clipping, never clips an in-bounds (NR) result; '
-          'maximize negates (value and gradients); status tables of all implementations (converged = the optimiser\'s own success, nlopt 5/6 never), exceptions of implementation / objective are never swallowed, a negative max_steps is never converged; the cached function-with-gradients functor is transparent and no state survives a minimize call; the COBYLA inequality constraints built from the bounds hold iff every x[i] is within its own bounds. Over ordered fields / the reals: slope sign at a forced bound, and for a convex objective the forced '
+          'maximize negates (value and gradients); status tables of all implementations (converged = the optimiser\'s own success, nlopt 5/6 never), exceptions of implementation / objective are never swallowed, a negative max_steps is never converged; the cached function-with-gradients functor is transparent and no state survives a minimize call; the COBYLA inequality constraints built from the bounds hold iff every x[i] is within its own bounds; the re-evaluation after clipping takes the function value for every return shape of the objective (scalar, tuple, list; an empty sequence raises); Minimizer(NR-1D) with any number of parameters and any ns_pidx returns the NR result unclipped; TCLLHRatio.maximize gives every implementation class the objective arity it unpacks; the success window of CRS, the bounded-method lists of scipy, the L-BFGS-B flags / task needles and the NR threshold are read from the source and proved to be the modelled ones (_for_current_source obligations). Over ordered fields / the reals: slope sign at a forced bound, and for a convex objective the forced '
           'bound is the exact optimum, a flag-0 point is within |slope|*(hi-lo) of it and, under curvature bounds m <= f\'\' <= M, within ns_tol + thr/m of the stationary point with f(x*) <= f(y) + M/2 (ns_tol + thr/m)^2 for every y incl. the initial point. '
           'The executable model is driven with the recorded objective triples of the real NR1dNsMinimizerImpl / '
           'NRNsScan2dMinimizerImpl / Minimizer / LLHRatio.maximize and compared bit-exactly (then decisions exact, values 1e-9).'),
